@@ -370,7 +370,7 @@ pub fn run_c01(o: &Opts) -> Report {
     let mut rep = Report::new(
         "C01",
         "well-formed enum values (all 30 constructors on top, nesting, per-format adversarial name alphabets, boundary floats, extreme stamps, all truth/budget arities) x 3 formats: \
-         real format_narsese vs model byte for byte; real parse of the formatted string vs model parse; on the real code: parse(format(v)) has the same kind and canonical form as v (known classes K1-K3 filtered by decidable predicates); \
+         real format_narsese vs model byte for byte; real parse of the formatted string vs model parse; on the real code: parse(format(v)) has the same kind and canonical form as v (known classes K1-K3 filtered by decidable predicates); compact values on a fresh thread after inputs of each other format; \
          distinct = distinct (format, canonical value); non-trivial = compound or sentence/task",
     );
     let mut rng = Rng::new(o.seed ^ 0xC01);
@@ -692,7 +692,7 @@ fn multi_case(cx: &mut Ctx, fm: &Fm, hs: &[String], stream: &str) {
 pub fn run_c08(o: &Opts) -> Report {
     let mut rep = Report::new(
         "C08",
-        "histories of 2-8 inputs mixing complete tasks/sentences/terms, budget-only / truth-only / punctuation-only fragments, partial inputs and malformed strings x 3 formats: real parse_multi vs model parse_multi (one re-targeted state); batches with repeated neighbours (every input -- each subset of the five items around a term, i.e. complete, partial and term-less, the fragments, complete values -- 2 and 3 times in a row, A B A B, A A B B), same-length and prefix neighbours; \
+        "histories of 2-8 inputs mixing complete tasks/sentences/terms, budget-only / truth-only / punctuation-only fragments, partial inputs and malformed strings x 3 formats: real parse_multi vs model parse_multi (one re-targeted state); batches with repeated neighbours (every input -- each subset of the five items around a term, i.e. complete, partial and term-less, the fragments, complete values -- 2 and 3 times in a row, A B A B, A A B B), same-length and prefix neighbours; well-formed inputs of exactly 2^k-1, 2^k, 2^k+1 (k = 8, 12, 15, 16) and 10^n-1, 10^n, 10^n+1 characters alone / parse_chars / inside a batch; compact well-formed texts on a FRESH THREAD after inputs of each other format and interleaved across formats; \
          on the real code: every position equals parsing that input alone, parse_chars equals parse, repeated parsing with the shared static instances gives equal results, lexical parser likewise; distinct = distinct (format, history); non-trivial = history with at least one failing or partial input before the last",
     );
     let mut rng = Rng::new(o.seed ^ 0xC08);
@@ -798,6 +798,56 @@ pub fn run_c08(o: &Opts) -> Report {
             let l2 = guard(|| fm.l.parse(s).ok());
             if l1 != l2 {
                 cx.fail("repeat", "lexical parser: same input, different results", format!("[{}] {:?}", fm.name, s), format!("{:?}", l1), format!("{:?}", l2), None);
+            }
+        }
+    }
+    // inputs AT SIZE THRESHOLDS: well-formed judgements of exactly 2^k - 1, 2^k, 2^k + 1 (k = 8, 12, 15, 16) and
+    // 10^n - 1, 10^n, 10^n + 1 characters (blank padding behind / in front / inside, one long name, many components),
+    // alone, through parse_chars and inside a batch: every entry point has its own copy of whatever guards the length.
+    // The model runs on the batches of the short ones only.
+    {
+        let mut lens: Vec<usize> = vec![];
+        for k in [8u32, 12, 15, 16] {
+            lens.extend([(1usize << k) - 1, 1 << k, (1 << k) + 1]);
+        }
+        for n in if o.thorough { 2..=5u32 } else { 2..=4u32 } {
+            lens.extend([10usize.pow(n) - 1, 10usize.pow(n), 10usize.pow(n) + 1]);
+        }
+        lens.sort();
+        let fms = formats();
+        for &len in lens.iter() {
+            for how in 0..5usize {
+                for fm in fms.iter() {
+                    let Some(s) = sized_text(fm.e, len, how) else { continue };
+                    let short = format!("A{}", fm.e.sentence.punctuation_judgement);
+                    let hs = vec![short.clone(), s.clone(), short];
+                    cx.rep.hist.add(format!("{}:size-threshold:{}", fm.name, if len <= 101 || (len <= 257 && how == 0) { "model+code" } else { "code" }));
+                    if len <= 101 || (len <= 257 && how == 0) {
+                        multi_case(&mut cx, fm, &hs, "size-thresholds");
+                    }
+                    let alone = real_parse(fm.e, &s);
+                    let chars = real_parse_chars(fm.e, &s);
+                    let multi = real_multi(fm.e, &hs);
+                    cx.rep.evaluations += 3;
+                    let shown = format!("[{}] a text of exactly {} characters: {:?} ...", fm.name, len, s.chars().take(40).collect::<String>());
+                    if canon_pr(&chars) != canon_pr(&alone) {
+                        cx.fail("size-thresholds", "parse_chars differs from parse", shown.clone(), canon_pr(&alone).chars().take(80).collect(), canon_pr(&chars).chars().take(80).collect(), None);
+                    }
+                    let at1 = match &multi {
+                        Ok(v) if v.len() == 3 => match &v[1] {
+                            Some(x) => canon_narsese(x),
+                            None => "Err".into(),
+                        },
+                        Ok(_) => "wrong number of results".into(),
+                        Err(()) => "PANIC".into(),
+                    };
+                    if at1 != canon_pr(&alone) {
+                        cx.fail("size-thresholds", "parse_multi position 1 differs from parsing that input alone", shown.clone(), canon_pr(&alone).chars().take(80).collect(), at1.chars().take(80).collect(), None);
+                    }
+                    if !matches!(alone, Ok(Some(_))) {
+                        cx.rep.hist.add(format!("{}:size-threshold:not-accepted:how{}", fm.name, how));
+                    }
+                }
             }
         }
     }
@@ -965,7 +1015,7 @@ pub fn run_c09(o: &Opts) -> Report {
     let mut rep = Report::new(
         "C09",
         "well-formed values printed by an independent token-level formatter and re-spaced (no spaces at all / canonical / 0-3 spaces at every token boundary; Unicode whitespace for the lexical side) x 3 formats: real parse vs model parse on every variant; \
-         on the real code: every variant parses to the value the canonical string parses to, in the enum parser and in the lexical-parse-then-fold pipeline; whitespace-stripped text through parse_chars (what enum_nse! does); distinct = distinct (format, variant text); non-trivial = all",
+         on the real code: every variant parses to the value the canonical string parses to, in the enum parser and in the lexical-parse-then-fold pipeline; whitespace-stripped text through parse_chars (what enum_nse! does); truth / budget number lists of 0..4 values with 0-2 trailing separators and a blank at every position inside the brackets; compact texts on a fresh thread after inputs of each other format (dense statements whose atom subject touches the copula); distinct = distinct (format, variant text); non-trivial = all",
     );
     let mut rng = Rng::new(o.seed ^ 0xC09);
     let mut cx = Ctx { rep: &mut rep, cases: vec![], lcases: vec![], ldescr: vec![] };
@@ -1095,6 +1145,42 @@ pub fn run_c09(o: &Opts) -> Report {
             cx.rep.evaluations += 1;
             if canon_pr(&rm) != want && !respace_known(&fm, &v) {
                 cx.fail("macro", "whitespace-stripped text parses differently", format!("[{}] {:?}", fm.name, stripped), want.clone(), canon_pr(&rm), None);
+            }
+        }
+    }
+    // number lists of every length with trailing separators and blanks at every position inside the brackets: all
+    // spellings of one list must parse alike (enum parser, lexical parse + fold); every text also goes to the model.
+    // Oracle restricted to the lists the README grammar allows and both parsers take (1..=full values, at most one
+    // trailing separator); the other lists (empty, over-full, `;;`) are compared with the model only
+    for fm in formats() {
+        for nl in number_list_texts(fm.e) {
+            let in_domain = nl.len >= 1 && nl.len <= nl.full && nl.trail <= 1;
+            let mut first: Option<(String, String)> = None;
+            for s in &nl.texts {
+                let r = cx.parse_case(&fm, s);
+                let lf = real_lexfold(&fm, s);
+                cx.rep.evaluations += 1;
+                cx.rep.hist.add(format!("{}:number-list:{:?}:len{}:trail{}:{}", fm.name, nl.kind, nl.len, nl.trail, pr_tag(&r)));
+                if !in_domain {
+                    continue;
+                }
+                let got = (canon_pr(&r), canon_pr(&lf));
+                match &first {
+                    None => {
+                        if !matches!(r, Ok(Some(_))) {
+                            cx.fail("number-lists", "well-formed number list rejected (enum parser)", format!("[{}] {:?}", fm.name, s), "Ok".into(), got.0.clone(), None);
+                        }
+                        first = Some(got);
+                    }
+                    Some(w) => {
+                        if got.0 != w.0 {
+                            cx.fail("number-lists", "blanks inside a number list change the parse (enum parser)", format!("[{}] {:?} (dense {:?})", fm.name, s, nl.texts[0]), w.0.clone(), got.0.clone(), None);
+                        }
+                        if got.1 != w.1 {
+                            cx.fail("number-lists", "blanks inside a number list change the parse (lexical parse + fold)", format!("[{}] {:?} (dense {:?})", fm.name, s, nl.texts[0]), w.1.clone(), got.1.clone(), None);
+                        }
+                    }
+                }
             }
         }
     }
@@ -1585,7 +1671,7 @@ pub fn run_c15(o: &Opts) -> Report {
     let mut rep = Report::new(
         "C15",
         "item combinations (budget present / empty / absent) x (term) x (punctuation present / absent) x stamp x truth, in all three formats, through both parsers: real outcome vs model (enum) and the classification table; casts: sentence->task->sentence, task->sentence iff empty budget (else handed back unchanged), NarseseValue wrap/unwrap (9 accessor combinations), \
-         format(cast_to_task(s)) parses to a task with an empty budget in both models, through EVERY public formatting entry point (format_narsese on the wrapped value, format_task, format / FormatTo on the value and on the payload; enum and lexical), the text compared with the model formatters (lexical cases run by Run/LexRun.v); kind(parse(format(v))) = kind(v) through every entry point; distinct = distinct (format, text); non-trivial = all",
+         format(cast_to_task(s)) parses to a task with an empty budget in both models, through EVERY public formatting entry point (format_narsese on the wrapped value, format_task, format / FormatTo on the value and on the payload; enum and lexical), the text compared with the model formatters (lexical cases run by Run/LexRun.v); kind(parse(format(v))) = kind(v) through every entry point; truth / budget number lists of 0..4 values with 0-2 trailing separators and blanks inside the brackets through both parsers; distinct = distinct (format, text); non-trivial = all",
     );
     let mut rng = Rng::new(o.seed ^ 0xC15);
     let mut cx = Ctx { rep: &mut rep, cases: vec![], lcases: vec![], ldescr: vec![] };
@@ -1670,6 +1756,43 @@ pub fn run_c15(o: &Opts) -> Report {
                 let k = if lv.is_task() { 2 } else if lv.is_sentence() { 1 } else { 0 };
                 if k != kind_of(v) {
                     cx.fail("classify", "enum and lexical parser classify the same text differently", format!("[{}] {:?}", fm.name, s), ["term", "sentence", "task"][k].into(), ["term", "sentence", "task"][kind_of(v)].into(), None);
+                }
+            }
+        }
+        // number lists of every length 0..4 with 0-2 trailing separators and blanks inside the brackets (truth: sentence,
+        // budget: task): every text against the model; where the list is one the README grammar allows and a writer would
+        // use (1..=full values, at most one trailing separator) both parsers must accept it and classify it by the items
+        // present; elsewhere (empty, over-full, `;;`) the two parsers are compared only when both accept
+        for nl in number_list_texts(e) {
+            let in_domain = nl.len >= 1 && nl.len <= nl.full && nl.trail <= 1;
+            let want_kind = if nl.kind == ItemKind::Budget { 2 } else { 1 };
+            // the dense text, the all-blank text and two single-blank texts per list (C09 runs all of them)
+            let k = nl.texts.len();
+            for (j, s) in nl.texts.iter().enumerate() {
+                if !(j <= 1 || j + 1 == k || j == k / 2 || j + 2 == k) {
+                    continue;
+                }
+                let r = cx.parse_case(&fm, s);
+                let lr = guard(|| fm.l.parse(s).ok());
+                cx.rep.evaluations += 1;
+                cx.rep.hist.add(format!("{}:number-list:{:?}:len{}:trail{}:{}", fm.name, nl.kind, nl.len, nl.trail, pr_tag(&r)));
+                let lk = match &lr {
+                    Some(Some(lv)) => Some(if lv.is_task() { 2 } else if lv.is_sentence() { 1 } else { 0 }),
+                    _ => None,
+                };
+                let ek = match &r {
+                    Ok(Some(v)) => Some(kind_of(v)),
+                    _ => None,
+                };
+                let names = |k: Option<usize>| k.map(|k| ["term", "sentence", "task"][k]).unwrap_or("Err").to_string();
+                if in_domain {
+                    if ek != Some(want_kind) || lk != Some(want_kind) {
+                        cx.fail("number-lists", "both parsers must classify a text with a well-formed number list by the items present", format!("[{}] {:?}", fm.name, s), names(Some(want_kind)), format!("enum {} / lexical {}", names(ek), names(lk)), None);
+                    }
+                } else if let (Some(a), Some(b)) = (ek, lk) {
+                    if a != b {
+                        cx.fail("number-lists", "enum and lexical parser classify the same text differently", format!("[{}] {:?}", fm.name, s), names(lk), names(ek), None);
+                    }
                 }
             }
         }
